@@ -48,6 +48,7 @@ def cworldWith (service : Nat → Nat) (checker : List String → M CVv) : World
   int := .int
   str := .str
   list := .list
+  newList vs := pure (.list vs)
   tuple := .list
   global _ := throw "NameError"
   truthy
